@@ -65,6 +65,50 @@ def pre(ctx):
             if not ok:
                 bad.append({"field": a["field"], "write": a["write"], "held": a["held"], "where": a["where"], "pos": a["pos"]})
         ctx.c15_broken.append({"stage": "obligation", "package": pkg, "unguarded_accesses": bad[:20], "output": out[-1500:]})
+    _source_obligations(ctx, binpath, gen)
+
+
+def _source_obligations(ctx, binpath, gen):
+    """Two assumptions of the access table that are checked on the source on every run:
+    (a) cacheJanitor.interval is confined to the janitor goroutine (no lock guards it);
+    (b) the header map stored with an entry is never written after the store (callers get shallow snapshots)."""
+    import glob
+    import re
+    # (a) confinement
+    rc, out = vlib.sh([binpath, "-dir", os.path.join(vlib.REPO, "cache"), "-out", gen, "-name", "AccJanitor", "-accessonly", "-guard", "interval=mu"], timeout=120)
+    ctx.obligations += 2
+    if rc == 0:
+        with open(os.path.join(gen, "AccJanitor.json")) as f:
+            acc = json.load(f)["accesses"]
+        owners = sorted({a["where"] for a in acc if not a["where"].startswith("New")})
+        roots = sorted({re.sub(r"^(cacheJanitor\.start/go@[^/]*).*$", r"\1", w) for w in owners})
+        if len(roots) <= 1:
+            ctx.discharged += 1
+            ctx.theorems["source:janitor_interval_confined"] = "checked on the regenerated access records (%d accesses, owner %s)" % (len(acc), roots)
+        else:
+            ctx.c15_broken.append({"stage": "obligation", "package": "cache",
+                                   "what": "cacheJanitor.interval is no lock-guarded field and must stay confined to the janitor goroutine, but it is accessed from several goroutines' entries",
+                                   "entries": roots, "accesses": [a for a in acc if not a["where"].startswith("New")][:10]})
+    else:
+        ctx.c15_broken.append({"stage": "translator run", "package": "cache(interval)", "output": out[-1500:]})
+    # (b) stored header map is read-only
+    bad = []
+    for fp in sorted(glob.glob(os.path.join(vlib.REPO, "proxy", "*.go")) + glob.glob(os.path.join(vlib.REPO, "cache", "*.go"))):
+        base = os.path.basename(fp)
+        if base.endswith("_test.go") or base.startswith("zz_verif"):
+            continue
+        with open(fp, encoding="utf-8", errors="replace") as f:
+            for n, line in enumerate(f, 1):
+                code = line.split("//")[0]
+                if re.search(r"Object\.Header\s*(\.(Set|Add|Del)\(|\[[^\]]*\]\s*=[^=])", code) or re.search(r"\bdelete\([^,]*Object\.Header", code):
+                    bad.append("%s:%d: %s" % (base, n, line.strip()[:160]))
+    if not bad:
+        ctx.discharged += 1
+        ctx.theorems["source:stored_header_read_only"] = "no write to a stored entry's header map in packages proxy and cache"
+    else:
+        ctx.c15_broken.append({"stage": "obligation", "package": "proxy",
+                               "what": "the header map stored with an entry is written after the store; the metadata snapshots handed to in-flight responses share that map",
+                               "sites": bad[:10]})
 
 
 def post(ctx):
